@@ -4,6 +4,15 @@ import json
 from check import Part
 from props import c02
 
+
+def _cfg(rng, n, flag):
+    # the c02 generator also draws min_stake values around 2^63 (they belong to the C02 check); this driver
+    # carries min_stake as a machine integer, so such values are replaced by an ordinary one
+    g = c02.gen_cfg(rng, n, flag)
+    if g[3] >= 2 ** 62:
+        g[3] = 3 * 10 ** 6
+    return g
+
 MIL = 10 ** 6
 
 
@@ -15,7 +24,7 @@ def _elig_op(rng, n, keyn):
         return [12, rng.randrange(n)]
     if k < 0.75:
         return [13, rng.randrange(n), rng.choice([keyn(), 5, 1000 + rng.randrange(n)])]
-    return [10] + c02.gen_cfg(rng, n, True)
+    return [10] + _cfg(rng, n, True)
 
 
 def _staking_ops(rng, n):
@@ -40,7 +49,7 @@ def gen_history(rng, tier):
     max_vals = max(1, rng.choice([100, 100, n, n - 1]))
     M = max(1, rng.choice([1, 2, n // 2, n - 1, n, n + 1]))
     bpe = rng.choice([1, 1, 1, 2])
-    cfg = c02.gen_cfg(rng, n, False)
+    cfg = _cfg(rng, n, False)
     if rng.random() < 0.6:                      # most consumers start with mild settings so that the launch succeeds
         cfg = [0, rng.choice([0, 0, n - 1]), rng.choice([0, 0, 50]), rng.choice([0, 0, MIL]), cfg[4], [], cfg[6] if rng.random() < 0.3 else [], cfg[7]]
     kn = [0]
@@ -57,7 +66,7 @@ def gen_history(rng, tier):
     for _ in range(rng.randint(0, 2)):
         pre.append([13, rng.randrange(n), keyn()])
     if rng.random() < 0.3:
-        pre.append([10] + c02.gen_cfg(rng, n, True))
+        pre.append([10] + _cfg(rng, n, True))
     rng.shuffle(pre)
     nblocks = rng.randint(6, 14) if tier == "quick" else rng.randint(6, 30)
     mode = rng.choice(["immediate", "delayed", "burst", "late", "random"])
